@@ -518,6 +518,14 @@ func (c *Check) regionOf(t *Term, rec map[string]map[string]*Builder) (fam strin
 	}
 	base := stripConv(t.A[0])
 	lo, hi := stripConv(t.A[1]), stripConv(t.A[2])
+	// len(prefix variable of this family): the one-byte family prefix
+	if lo.Op == "len" && len(lo.A) == 1 {
+		if pv := stripConv(lo.A[0]); pv.Op == "" && strings.HasPrefix(pv.At, "@types.") {
+			if pf, _ := c.P.keyFamily(pv); pf == fam && a < b && shape[a].Kind == "Const" {
+				lo = atom("#1")
+			}
+		}
+	}
 	// low bound
 	switch {
 	case lo.IsAt("_") || lo.IsAt("#0"):
